@@ -70,13 +70,14 @@ COMPS = ["partial_weight", "partial_weight_interference", "cal_fitfractions", "c
 
 
 def bounds(tier):
-    return {"blocks": BLOCKS, "computations": COMPS, "nesting": 2, "fault_positions": "block body; k-th density evaluation for k = 1..K (K = number of evaluations of the fault-free run)"}
+    return {"blocks": BLOCKS, "computations": COMPS, "computation_start_states": ["full model"] + PRES, "nesting": 2, "fault_positions": "block body; k-th density evaluation for k = 1..K (K = number of evaluations of the fault-free run)"}
 
 
 def jobs(tier, seed):
     out = [("blocks", b) for b in BLOCKS]
     out += [("nested", a, b) for a in BLOCKS[:4] for b in BLOCKS[:4] if a != b][: (6 if tier == "quick" else 12)]
     out += [("comp", c) for c in COMPS]
+    out += [("comp_seq", c, pre) for c in COMPS for pre in PRES]
     out += [("vm_bounded",)]
     return out
 
@@ -218,10 +219,54 @@ def scenario_nested(outer, inner, fault):
     return before, after, dens0, dens1
 
 
-def scenario_comp(comp, k):
-    """k = None: fault-free (returns the number of density evaluations), else fail at the k-th evaluation"""
+PRES = ["restricted", "inside_block", "after_failed_block", "after_failed_nested"]
+
+
+def _pre_state(amp, pre):
+    """bring the model into a state that earlier operations of a session leave behind; returns a context to run the computation in"""
+    import contextlib
+
+    res = [str(r) for r in amp.decay_group.resonances]
+    if pre == "restricted":
+        # the user selected a subset permanently
+        amp.set_used_res(res[:1])
+    elif pre == "after_failed_block":
+        try:
+            with amp.temp_used_res(res[:1]):
+                raise Injected()
+        except Injected:
+            pass
+    elif pre == "after_failed_nested":
+        pn = [n for n in amp.vm.trainable_vars][:1]
+        try:
+            with amp.temp_params({pn[0]: _v("tmp_pre")}):
+                with amp.temp_used_res(res[1:2]):
+                    raise Injected()
+        except Injected:
+            pass
+    if pre == "inside_block":
+        return amp.temp_used_res(res[:2])
+    return contextlib.nullcontext()
+
+
+def scenario_comp(comp, k, pre=None):
+    """k = None: fault-free (returns the number of density evaluations), else fail at the k-th evaluation.
+    pre: state the computation starts from (None = the full model)"""
     amp, config, data = _setup()
     dg = amp.decay_group
+    if pre is not None:
+        full0 = _snapshot(amp)
+        ctx = _pre_state(amp, pre)
+        with ctx:
+            before = _snapshot(amp)
+            dens0 = _density_terms(amp, data)
+            try:
+                _run_comp(amp, data, comp)
+            except Injected:
+                pass
+            after = _snapshot(amp)
+            dens1 = _density_terms(amp, data)
+        return before, after, dens0, dens1, 0
     count = [0]
     real = dg.sum_amp
 
@@ -298,6 +343,20 @@ def job_comp(ss, comp):
             before, after, dens0, dens1, _ = scenario_comp(comp, k)
             _record(ss, "unchanged_after[%s,fault@%d/%d]" % (comp, k, K), "unchanged_after." + comp + ".exception", before, after, dens0, dens1, "density evaluation %d of %d" % (k, K), dict(comp=comp, k=k))
         ss.note(name="comp." + comp, evaluations=K)
+    finally:
+        ffm.np = old
+
+
+def job_comp_seq(ss, comp, pre):
+    """the computation starts from a state that earlier operations leave behind (a permanent selection, an enclosing block, a block left by an exception)"""
+    import tf_pwa.fitfractions as ffm
+    from symx.npproxy import NumpyProxy
+
+    old = ffm.np
+    ffm.np = NumpyProxy()
+    try:
+        before, after, dens0, dens1, _ = scenario_comp(comp, None, pre)
+        _record(ss, "unchanged_after[%s,from=%s]" % (comp, pre), "unchanged_after." + comp + ".from_" + pre, before, after, dens0, dens1, None, dict(comp=comp, k=None, pre=pre))
     finally:
         ffm.np = old
 
